@@ -140,8 +140,14 @@ impl Controller {
     /// Waits until `role` is done, waiting for a grant, or parked inside lock() behind another
     /// role.  Returns a description of where it stopped.  `step_cap` bounds its total steps.
     pub fn settle(&self, role: usize, step_cap: usize) -> Stop {
+        self.settle_within(role, step_cap, std::time::Duration::from_secs(20))
+    }
+
+    /// Like `settle`, with an explicit wall-clock deadline (for roles that may block inside a lock
+    /// the step hook does not see).
+    pub fn settle_within(&self, role: usize, step_cap: usize, limit: std::time::Duration) -> Stop {
         let mut sh = self.shared.lock().unwrap();
-        let deadline = std::time::Instant::now() + std::time::Duration::from_secs(20);
+        let deadline = std::time::Instant::now() + limit;
         loop {
             if sh.roles[role].done {
                 return Stop::Done;
